@@ -47,7 +47,7 @@ def gen_case(rng: random.Random):
                 s.update(op=op + "bot", x=0)
                 s["assert"] = True
             elif r < 0.14 and op in ("eq", "in"):
-                s.update(op=op + "bad", x=0)
+                s.update(op=op + rng.choice(["bad", "nc"]), x=0)
                 s["assert"] = True
             elif r < 0.20 and i in used and op != "none":
                 wrong = rng.choice([w for w in ("eq", "in", "le") if w != op and not (op == "dict" and False)])
@@ -61,7 +61,7 @@ def gen_case(rng: random.Random):
             else:
                 s.update(op=op)
             s.pop("assert_", None)
-            if s["op"] not in ("raise", "none") and not s["op"].endswith(("bot", "bad")) and \
+            if s["op"] not in ("raise", "none") and not s["op"].endswith(("bot", "bad", "nc")) and \
                     (s["op"] == op or (op == "dict" and s["op"] in ("deq", "dle", "dge", "dget"))):
                 used.add(i)
             test.append(s)
